@@ -7,6 +7,8 @@ package sx
 
 import (
 	"fmt"
+	"strconv"
+	"strings"
 	"time"
 
 	"verif/internal/harness"
@@ -44,6 +46,25 @@ var Programs = []string{
 	`a*b*c*`, `\bfoo\b`, `ab|cd`, `a.*b`, `(a+)(b+)?`, `.`, `([a-z])+[0-9]`, `^(a)(b)?`, `[a-z]+`, `[a-z]+[0-9]+`,
 	`^(\d+|foo|xbar)`, `^/.*\.php$`, `ab$`, `.*\.txt`, `.+\.txt`, `.*\.(txt|log|md)`, `\w+@\w+`, `(?m)^.*\.php`, `foo|bar|baz`, `\d+\.\d+`,
 	`(?i)foobar|bazqux`, `x[α-ω]+`,
+}
+
+// LargePrograms are explored with one haystack beyond the bounded backtracker's input limit (32 Mi / NFA states
+// entries), which switches the engine to its large-input fallback paths. A haystack written "@repeat:N:text" stands
+// for text repeated N times (kept symbolic so that reports stay small).
+var LargePrograms = []string{`\pL+`}
+
+// BigHay is the symbolic large haystack (≈ 9 KB; the backtracker limit of `\\pL+` is ≈ 5.5 KB).
+const BigHay = "@repeat:800:αβγ δε "
+
+// Expand resolves the symbolic haystack notation.
+func Expand(h string) string {
+	if !strings.HasPrefix(h, "@repeat:") {
+		return h
+	}
+	rest := h[len("@repeat:"):]
+	i := strings.IndexByte(rest, ':')
+	n, _ := strconv.Atoi(rest[:i])
+	return strings.Repeat(rest[i+1:], n)
 }
 
 // APIs explored.
@@ -112,6 +133,16 @@ func Units(thorough bool) []Unit {
 			out = append(out, Unit{p, true, [][]Call{{{"FindIndex", hs[0]}}, {{"FindSubmatchIndex", hs[1]}}}})
 		}
 	}
+	// large-input fallback: one enumeration over a haystack beyond the backtracker limit, then concurrent small calls
+	for _, p := range LargePrograms {
+		small := "αβ γ"
+		out = append(out, Unit{p, false, [][]Call{{{"FindAllIndex", BigHay}, {"Match", small}}, {{"FindIndex", small}}}})
+		out = append(out, Unit{p, false, [][]Call{{{"Count", BigHay}, {"FindAllIndex", small}}, {{"FindAllIndex", small}}}})
+		if thorough {
+			out = append(out, Unit{p, false, [][]Call{{{"FindAllIndex", BigHay}}, {{"Count", BigHay}}}})
+			out = append(out, Unit{p, false, [][]Call{{{"Count", BigHay}, {"Match", small}}, {{"FindIndex", small}}, {{"FindSubmatchIndex", small}}}})
+		}
+	}
 	return out
 }
 
@@ -136,6 +167,9 @@ func Plan(tier string) *harness.Plan {
 			b, c := bound, capExec
 			if w.Pass == "race-detector" && !thorough {
 				b, c = 1, 600 // the -race build is ~10x slower: the quick tier runs it at preemption bound 1
+			}
+			if strings.Contains(units[u].String(), "@repeat:") {
+				c = min(c, 150) // executions over a large haystack are ~100x more expensive
 			}
 			RunUnit(w, units[u], b, c)
 		},
